@@ -83,6 +83,6 @@ pub fn def() -> PropertyDef {
                queue model after every step; every segment is parsed and each sample located through tfhd/trun data_offset; a differential run \
                without the queries checks purity; non-trivial = >=2 non-empty flushes and >=2 distinct sample sizes",
         assumptions: &["DTS below 2^41 and gaps below 2^31 ticks (field-width boundaries belong to C16, panics to C12)"],
-        subs: vec![Box::new(PSub { name: "queue_model", quick: 5000, thorough: 200_000, strat, eval })],
+        subs: vec![Box::new(PSub { name: "queue_model", quick: 40000, thorough: 1200000, strat, eval })],
     }
 }
